@@ -339,6 +339,10 @@ def gen_state(rng, label):
         meta["tags"] = ["a", "b"]
     if rng.random() < 0.3:
         meta["cospar_id"] = "1998-067A"
+    if rng.random() < 0.4:
+        # metadata whose value is "empty" in the boolean sense is metadata all the same (ndotdot = 0.0 and type = 0 of every
+        # orbit read from a TLE, a drag area of 0.0, a flag set to False ...)
+        meta.update(rng.choice([{"ndotdot": 0.0, "type": 0}, {"drag_area": 0.0, "tracked": False}, {"comment": "", "passes": 0}]))
     descr = dict(label=label, a=a, e=e, i=inc, raan=raan, argp=argp, nu=nu, frame=frame, form=form, mjd_day=day, usec=usec,
                  cls=cls, maneuvers=mans, cov_frame=cov_frame, meta=meta, r=[float(x) for x in r], v=[float(x) for x in v])
     if cov_frame is not None:
